@@ -75,10 +75,12 @@ class Predicate:
 
         :param old_to_new_param_names: the mapping of old parameter names to new parameter names.
         """
-        ordered_old_parameters = list(self.signature.keys())
-        for old_param_name in ordered_old_parameters:
-            new_param_name = old_to_new_param_names[old_param_name]
-            self.signature[new_param_name] = self.signature.pop(old_param_name)
+        # building a new signature so that new names that overlap the old ones do not override each other,
+        # names that are not being changed (e.g., constants and quantified parameters) are kept as they are.
+        self.signature = {
+            old_to_new_param_names.get(old_param_name, old_param_name): param_type
+            for old_param_name, param_type in self.signature.items()
+        }
 
     @property
     def untyped_representation(self) -> str:
